@@ -1,4 +1,8 @@
 -- property: C12
+-- assumes: P and Q are distinct primes (ValidatePrime checks size and residue only; key generation samples Blum primes)
+-- assumes: the nonce is a unit modulo N (sample.UnitModN)
+-- assumes: phiInv is a true inverse of phi modulo N (gcd(N, phi) = 1; holds for two odd primes of equal bit length)
+-- assumes: modexp / modinv / symmod in the contracts are the textbook functions (A-NT)
 -- Textbook correctness of Paillier decryption for the formula the real code computes. The contracts pin the VALUES:
 --   NewSecretKeyFromPrimes : N = P*Q, phi = (P-1)(Q-1), phiInv = phi^-1 mod N, N^2, N+1
 --   EncWithNonce(m, rho)   : (N+1)^m * rho^N mod N^2                  (signed exponent for negative m)
